@@ -519,6 +519,14 @@ func (w *World) runFrame(fr *frame) {
 			fr.visits = map[*ssa.BasicBlock]int{}
 		}
 		fr.visits[fr.block]++
+		if fr.visits[fr.block] > 1 {
+			if v, ok := w.ext["loopbounds"]; ok {
+				if n, ok := v.(map[string]int)[fr.fn.String()]; ok && fr.visits[fr.block] > n {
+					w.res.Cuts[fmt.Sprintf("loop %s <= %d rounds", fr.fn.String(), n)]++
+					panic(pathEnd{"infeasible", "loop bound cut"})
+				}
+			}
+		}
 		if fr.visits[fr.block] > w.bounds.MaxLoop {
 			panic(pathEnd{"unwind", fmt.Sprintf("block visited more than %d times in %s", w.bounds.MaxLoop, fr.fn)})
 		}
@@ -636,6 +644,16 @@ func lookupIntrinsic(fn *ssa.Function, name string) intrinsic {
 	if o := fn.Origin(); o != nil {
 		if in, ok := intrinsics[o.String()]; ok {
 			return in
+		}
+	}
+	// generated protobuf enum String(): look the name up in the generated X_name map
+	if fn.Name() == "String" && fn.Signature.Recv() != nil && fn.Pkg != nil && fn.Pkg.Pkg.Path() == repoMod+"/proto" {
+		if n, ok := fn.Signature.Recv().Type().(*types.Named); ok {
+			if b, ok := n.Underlying().(*types.Basic); ok && b.Kind() == types.Int32 {
+				if _, ok := fn.Pkg.Members[n.Obj().Name()+"_name"].(*ssa.Global); ok {
+					return enumStringIntrinsic
+				}
+			}
 		}
 	}
 	if strings.HasPrefix(name, verifndPath+".") {
